@@ -410,6 +410,15 @@ def _lies(case: dict[str, Any]) -> set[str]:
     return out
 
 
+def _probe_size_truthful(case: dict[str, Any], presigned: bool) -> bool:
+    """Did the probe (HEAD, or the Range probe of a pre-signed URL) tell the client the object's true stored size?"""
+    o = case["obj"]
+    if presigned:
+        return (o.get("probe") or {}).get("mode", "range") == "range" and (o.get("range") or {}).get("mode", "honour") in ("honour", "416", "500")
+    h = o.get("head") or {}
+    return int(h.get("status", 200)) == 200 and not h.get("drop") and h.get("cl", "true") == "true"
+
+
 def _chain(exc: BaseException) -> list[tuple[BaseException, bool]]:
     """(exception, displayed) for the whole cause/context graph; displayed = what a traceback would print."""
     out: list[tuple[BaseException, bool]] = []
@@ -733,6 +742,11 @@ def run_shard(job: dict[str, Any]) -> dict[str, Any]:
                 rmode = (case["obj"].get("range") or {}).get("mode")
                 if took_parallel and rmode in ("shift_lying", "no_cr"):
                     undetectable = f"range_{rmode}_carries_no_evidence"
+                g_ = case["obj"].get("get") or {}
+                if g_.get("length") == "none" and g_.get("abort_at") is not None and not took_parallel and not _probe_size_truthful(case, bool(u["presigned"])):
+                    # a body delimited only by connection close, cut half way, and no truthful size from the probe:
+                    # nothing the client received distinguishes the prefix from a complete object
+                    undetectable = "unframed_body_cut_short_without_a_truthful_probe_size"
                 if (case["obj"].get("get") or {}).get("status") == 204 and not took_parallel:
                     acceptable = [b""]  # the origin answered "no content": that is what it serves
                 if data in acceptable:
